@@ -1011,6 +1011,18 @@ def c02_anyall(ctx):
         pred = P(b.local_name(2))
         ok = False
         why = t_str(r.ret)[:200]
+        if not (inner is not None and inner[0] == 'call' and term_callee(inner) == PAR_TRAIT + '::find'):
+            # written as a branch (`match self.find(p) { Some(_) => true, None => false }`): evaluate the body for both cases of the
+            # find result and rebuild the boolean normal form from the two answers
+            from .optcase import case_returns_rerun
+            fc = [c for _, c in r.call_sites() if sg(c['decl']) == PAR_TRAIT + '::find' and c['args'] and c['args'][0] == P('self')]
+            if len(fc) == 1:
+                cases, V = case_returns_rerun(ctx, name, fc[0]['res'])
+                if cases['some'] == {('const', 1)} and cases['none'] == {('const', 0)}:
+                    kind, inner = 'is_some', fc[0]['res']
+                elif cases['some'] == {('const', 0)} and cases['none'] == {('const', 1)}:
+                    kind, inner = 'is_none', fc[0]['res']
+                why = 'find(..) is Some => %s, None => %s' % (sorted(t_str(x) for x in cases['some']), sorted(t_str(x) for x in cases['none']))
         if inner is not None and inner[0] == 'call' and term_callee(inner) == PAR_TRAIT + '::find' and inner[2][0] == P('self'):
             arg = inner[2][1]
             if m == 'any':
@@ -1174,9 +1186,16 @@ def operator_selection(ctx, op, mode, user=None):
             return None, 'the operator does not use %s' % t_str(user)
         cap = P('cap:' + cb.d['captures'][list(op[2]).index(user)])
     cands = []
+    recs = []
     for _, c in r0.call_sites():
-        t = c['res']
-        if mode == 'natural' and sg(c['decl']) in ('std::cmp::Ord::cmp', 'std::cmp::PartialOrd::partial_cmp'):
+        recs.append((c['res'], sg(c['decl']), tuple(c['args'])))
+        # a crate helper that computes the ordering (`cmp_by_key(key, &x, &y)`) is inlined by the analysis: its value is the cmp term
+        tv = c['res']
+        if c['t'].get('local') and tv is not None and tv[0] == 'call' and sg(tv[1]) in ('std::cmp::Ord::cmp', 'std::cmp::PartialOrd::partial_cmp'):
+            recs.append((tv, sg(tv[1]), tuple(tv[2])))
+    for (t, dcl, cargs) in recs:
+        c = {'args': cargs, 'decl': dcl}
+        if mode == 'natural' and dcl in ('std::cmp::Ord::cmp', 'std::cmp::PartialOrd::partial_cmp'):
             a = tuple(c['args'])
             if a == (x, y):
                 cands.append((t, False))
@@ -1187,7 +1206,7 @@ def operator_selection(ctx, op, mode, user=None):
                 cands.append((t, False))
             elif _is_call_of(t, cap, (y, x)):
                 cands.append((t, True))
-        elif mode == 'key' and cap is not None and sg(c['decl']) == 'std::cmp::Ord::cmp' and len(c['args']) == 2:
+        elif mode == 'key' and cap is not None and dcl == 'std::cmp::Ord::cmp' and len(c['args']) == 2:
             kx, ky = c['args']
             if _is_call_of(kx, cap, (x,)) and _is_call_of(ky, cap, (y,)):
                 cands.append((t, False))
@@ -1461,6 +1480,19 @@ def bounded_by(t, X, depth=0):
     if t[0] == 'call' and term_callee(t) in ('std::cmp::Ord::max', 'std::cmp::max'):
         a, b = t[2]
         return (bounded_by(a, X, depth + 1) and b == ('const', 1)) or (bounded_by(b, X, depth + 1) and a == ('const', 1))
+    if t[0] == 'call' and term_callee(t) in ('std::option::Option::map_or', 'std::option::Option::map_or_else') and len(t[2]) == 3:
+        # opt.map_or(default, f): both the default and f(payload) are bounded, whatever the payload is
+        from .engine import current_ctx
+        from .items import Items
+        ctx = current_ctx()
+        I = ctx.cache.setdefault('items', Items(ctx)) if ctx is not None else None
+        if I is None:
+            return False
+        dflt = t[2][1] if term_callee(t).endswith('map_or') else I.apply(t[2][1], [])
+        mapped = I.apply(t[2][2], [('param', '$payload')])
+        return bounded_by(dflt, X, depth + 1) and bounded_by(mapped, X, depth + 1)
+    if t[0] == 'call' and term_callee(t) in ('std::option::Option::unwrap_or',) and len(t[2]) == 2:
+        return bounded_by(t[2][1], X, depth + 1) and bounded_by(('field', t[2][0], 1, 0), X, depth + 1)
     return False
 
 
